@@ -705,6 +705,43 @@ def check_one_step(ctx, rule='R-ONESTEP'):
     ctx.floor('step-boundary searches judged by R-ONESTEP', n, 3)
 
 
+def check_dead_carry(ctx, rule='R-CARRY'):
+    """End stamps are begin + step; the end hour is reduced modulo the day length and the whole days it contained are carried into the
+    end date.  The carry has to be taken from the value *before* the reduction: x // M of a value last stored as (...) % M is 0 for
+    every input, so the end date never rolls over (a step that ends at midnight is stamped (D, 0) instead of (D + 1, 0))."""
+    ctx.rule(rule, 'writers: a day carry (x // M) is never computed from a value that was already reduced modulo M')
+    n = 0
+    for m in ctx.src.all_modules():
+        if not (m.relpath.startswith(CAMX) and m.relpath.endswith('/Write.py')):
+            continue
+        for q, fn in sorted(m.functions.items()):
+            if '<locals>' in q:
+                continue
+            last = {}
+            found = False
+            for st in iter_stmts(fn.body):
+                # reads first: a floor division whose dividend is a stored place
+                for b in walk_expr(st):
+                    if isinstance(b, ast.BinOp) and isinstance(b.op, ast.FloorDiv) and isinstance(b.right, ast.Constant):
+                        key = norm(b.left)
+                        found = True
+                        n += 1
+                        prev = last.get(key)
+                        if prev is not None and isinstance(prev, ast.BinOp) and isinstance(prev.op, ast.Mod) and isinstance(prev.right, ast.Constant) \
+                                and prev.right.value == b.right.value:
+                            ctx.violation(Finding(rule, m.relpath, q, st, 'the carry %s is taken from a value that was last stored as %s: it is 0 for every input, so the date it is added to never '
+                                                  'rolls over (a step ending at midnight is written with the end date of the day before)' % (norm(b), norm(prev)[:50])),
+                                          oid='%s:%s' % (q, norm(b)))
+                        else:
+                            ctx.ok(rule, '%s:%s@%d' % (q, norm(b)[:30], getattr(st, '_src_lineno', st.lineno)), 'src/PseudoNetCDF/%s %s' % (m.relpath, q), 'dividend %s not reduced before' % key[:40])
+                if isinstance(st, ast.Assign):
+                    for t in st.targets:
+                        last[norm(t)] = st.value
+                elif isinstance(st, ast.AugAssign):
+                    last[norm(st.target)] = None
+    ctx.floor('carries judged by R-CARRY', n, 2)
+
+
 def check_varorder(ctx):
     src = ctx.src
     wm = src.mod(CAMX + 'cloud_rain/Write.py')
@@ -1024,6 +1061,7 @@ def run(ctx):
     ctx.rule('R-BYTEORDER', 'every emitted value has a byte order fixed by the writer (big-endian conversion or big-endian header array), never that of an input attribute')
     ctx.floor('emission sites examined for byte order', check_byteorder(ctx), 40)
     check_one_step(ctx)
+    check_dead_carry(ctx)
     check_landuse(ctx)
     check_api(ctx, ctx.tier)
     ctx.assumptions += ['byte order is ignored when layouts are compared (readers default to big endian, writers spell it)',
